@@ -63,7 +63,9 @@ type directObject struct {
 	extra any
 }
 
-func obsDirect(x any) map[string]string { return map[string]string{"behaviour": x.(*directObject).probe()} }
+func obsDirect(x any) map[string]string {
+	return map[string]string{"behaviour": x.(*directObject).probe()}
+}
 
 func obsPrim(x any) map[string]string {
 	o := x.(*primObject)
@@ -244,6 +246,46 @@ func primitiveUses(kind, impl, concrete string, get func(o any) any, peer func(o
 				out, err := s.PRFs[s.PrimaryID].ComputePRF(c.In("input", nil), 12)
 				c.Check(err)
 				c.Out("output", out)
+			},
+		}
+	case "indcpa":
+		type indcpa interface {
+			Encrypt(plaintext []byte) ([]byte, error)
+			Decrypt(ciphertext []byte) ([]byte, error)
+		}
+		return []func(c *Call, o any){
+			func(c *Call, o any) {
+				c.Site(impl+".Encrypt", "aead/subtle.(INDCPACipher).Encrypt", concrete+".Encrypt")
+				ct, err := get(o).(indcpa).Encrypt(c.In("plaintext", c.Rand(21)))
+				c.Check(err)
+				c.Out("ciphertext", ct)
+			},
+			func(c *Call, o any) {
+				c.Site(impl+".Decrypt", "aead/subtle.(INDCPACipher).Decrypt", concrete+".Decrypt")
+				ct := must(peer(o).(indcpa).Encrypt(c.Rand(33)))
+				pt, err := get(o).(indcpa).Decrypt(c.In("ciphertext", ct))
+				c.Check(err)
+				c.Out("plaintext", pt)
+			},
+		}
+	case "kwp":
+		type kwp interface {
+			Wrap(data []byte) ([]byte, error)
+			Unwrap(data []byte) ([]byte, error)
+		}
+		return []func(c *Call, o any){
+			func(c *Call, o any) {
+				c.Site(impl+".Wrap", concrete+".Wrap")
+				ct, err := get(o).(kwp).Wrap(c.In("data", c.Rand(21)))
+				c.Check(err)
+				c.Out("wrapped", ct)
+			},
+			func(c *Call, o any) {
+				c.Site(impl+".Unwrap", concrete+".Unwrap")
+				ct := must(peer(o).(kwp).Wrap(c.Rand(33)))
+				pt, err := get(o).(kwp).Unwrap(c.In("data", ct))
+				c.Check(err)
+				c.Out("unwrapped", pt)
 			},
 		}
 	case "prf1":
